@@ -106,16 +106,24 @@ PlayerExpect(i, ship) ==
   <<E(p("name"), "pname" \o x), E(p("score"), "pscore" \o x), E(p("duration"), "pdur" \o x)>>
   \o (IF ship THEN <<E(p("deaths"), "pdeaths" \o x), E(p("money"), "pmoney" \o x)>>
       ELSE <<En(p("deaths")), En(p("money"))>>)
+\* (direct indexing instead of concatenation: 255 entries would recurse too deeply in TLC)
+Per(ship) == IF ship THEN 6 ELSE 4
 Players(s) ==
   [kind |-> 68,
-   items |-> <<Lit(<<s.n>>)>> \o Cat([i \in 1 .. s.n |-> Player(i, s.ship)]),
-   expect |-> <<El(<<"players">>)>> \o Cat([i \in 1 .. s.n |-> PlayerExpect(i, s.ship)])]
+   items |-> [j \in 1 .. (1 + s.n * Per(s.ship)) |->
+                IF j = 1 THEN Lit(<<s.n>>)
+                ELSE Player(((j - 2) \div Per(s.ship)) + 1, s.ship)[((j - 2) % Per(s.ship)) + 1]],
+   expect |-> [j \in 1 .. (1 + s.n * 5) |->
+                IF j = 1 THEN El(<<"players">>)
+                ELSE PlayerExpect(((j - 2) \div 5) + 1, s.ship)[((j - 2) % 5) + 1]]]
 
 \* --- A2S_RULES ('E' = 0x45) -------------------------------------------------------------------------
 RulesShapes == [n : RuleCounts]
 Rules(s) ==
   [kind |-> 69,
-   items |-> <<Lit(U16le(s.n))>> \o Cat([i \in 1 .. s.n |-> <<Fu("rk" \o Str(i), "cstr", "rulekeys"), F("rv" \o Str(i), "cstr")>>]),
+   items |-> [j \in 1 .. (1 + 2 * s.n) |->
+                IF j = 1 THEN Lit(U16le(s.n))
+                ELSE IF (j % 2) = 0 THEN Fu("rk" \o Str(j \div 2), "cstr", "rulekeys") ELSE F("rv" \o Str(j \div 2), "cstr")],
    expect |-> <<Eo(<<"rules">>)>> \o [i \in 1 .. s.n |-> Ek(<<"rules">>, "rk" \o Str(i), "rv" \o Str(i))]]
 
 \* --- split-packet framing -------------------------------------------------------------------------------
